@@ -235,3 +235,22 @@ PROPS["C05"] = {
         "setenv is not generated (process-wide by design)",
     ],
 }
+
+PROPS["C17"] = {
+    "level": "exploration",
+    "runs": [run("TestC17", (4000, 6), (120000, 16))],
+    "rule": "cases = base rule sets of 3..7 rules (ids, up to two tags, messages, chains, exclusions, deny rules) + one directive: "
+            "SecRuleRemoveById (ids, several ids, ranges) / ByTag / ByMsg, SecRuleUpdateTargetById (single, several, range; positive and "
+            "negative targets; string and regex keys) / ByTag, SecRuleUpdateActionById (single, several, range; disruptive, status, "
+            "setvar, transformation and logging actions), or a run-time ctl:ruleRemoveById/ByTag/ByMsg / ruleRemoveTargetById/ByTag/ByMsg "
+            "placed at every position and phase, unconditional or conditional on the request; oracle = the same request through the "
+            "directive form and through the configuration rewritten on the structured description must give the same fired ids, match "
+            "data, counters and interruption; for conditional ctl a second transaction that does not execute it must equal the base "
+            "configuration; non-trivial = the directive changes the outcome for that request",
+    "essential": {"all": ["outcome-changed:removeById", "outcome-changed:removeByTag", "outcome-changed:removeByMsg", "outcome-changed:updTargetById",
+                          "outcome-changed:updTargetByTag", "outcome-changed:updActionById", "outcome-changed:ctl", "several-ids", "id-range",
+                          "regex-key-target", "positive-target", "chain-in-base", "second-transaction-checked", "ctl:ruleRemoveTargetByTag", "ctl:ruleRemoveByMsg"]},
+    "assumptions": COMMON_ASSUME + [
+        "updates of id/phase are not generated (documented as unsupported); ctl keys are lower-case (C01 owns key case)",
+    ],
+}
